@@ -20,3 +20,6 @@ package simhook
 
 // Yield marks a point where a simulator may park the calling goroutine. No-op in normal builds.
 func Yield(point string, key ...string) {}
+
+// SpinWait reports whether a polling wait should retry at once instead of sleeping. Always false in normal builds.
+func SpinWait() bool { return false }
